@@ -908,8 +908,11 @@ pub struct VPeer {
     pub put_reply: i32, // 0 = ack, else error code
     /// 0 honest; byzantine answers to get requests: 1 item validly signed by another key, 2 value with
     /// another hash, 3 signed peers with one bad signature among good ones, 4 item signed for another
-    /// salt, 5 bit-flipped value, 6 all-bad signed peers
+    /// salt, 5 bit-flipped value, 6 all-bad signed peers, 7 the genuine (key, seq, signature) of an
+    /// item some honest peer holds, with another value
     pub forge: u8,
+    /// added to the network latency for this peer's replies
+    pub extra_delay: u64,
 }
 
 pub struct VNet {
@@ -937,7 +940,7 @@ impl VNet {
             let addr = SocketAddrV4::new(ip, 6881);
             let id = Id::from_bytes(rng.id20()).expect("id");
             by_addr.insert(addr, i);
-            peers.push(VPeer { id, addr, alive: true, mode: 0, read_only: false, imm: HashMap::new(), muts: HashMap::new(), peers: HashMap::new(), speers: HashMap::new(), put_reply: 0, forge: 0 });
+            peers.push(VPeer { id, addr, alive: true, mode: 0, read_only: false, imm: HashMap::new(), muts: HashMap::new(), peers: HashMap::new(), speers: HashMap::new(), put_reply: 0, forge: 0, extra_delay: 0 });
         }
         VNet { peers, by_addr }
     }
@@ -975,6 +978,11 @@ impl VNet {
                                 v[0] ^= 1;
                             }
                             return MessageType::Response(ResponseSpecific::GetMutable(GetMutableResponseArguments { responder_id: me, token, nodes: n, v: v.into_boxed_slice(), k: *item.key(), seq: item.seq(), sig: *item.signature() }));
+                        }
+                        7 => {
+                            if let Some((_, k, seq, sig)) = self.peers.iter().find_map(|p| p.muts.get(&a.target)).cloned() {
+                                return MessageType::Response(ResponseSpecific::GetMutable(GetMutableResponseArguments { responder_id: me, token, nodes: n, v: b"FORGED value".to_vec().into_boxed_slice(), k, seq, sig }));
+                            }
                         }
                         2 => return MessageType::Response(ResponseSpecific::GetImmutable(GetImmutableResponseArguments { responder_id: me, token, nodes: n, v: b"not what you asked for".to_vec().into_boxed_slice() })),
                         _ => {}
@@ -1176,7 +1184,7 @@ impl<'a> Driver<'a> {
             let from = s.to;
             let mt = self.net.reply(i, req, self.s.addr);
             let ro = self.net.peers[i].read_only;
-            let mut due = now + self.latency;
+            let mut due = now + self.latency + self.net.peers[i].extra_delay;
             if self.rng.below(100) < self.drop_pct {
                 continue;
             }
@@ -1389,6 +1397,36 @@ pub fn run(out: &mut Out, seed: u64, thorough: bool, replay: Option<&str>) {
             d.s.shutdown();
         }
     }
+    // ---- C': replay of a genuine (key, seq, signature) with another value, before and after the
+    //          honest answer reached the lookup
+    for forged_first in [false, true] {
+        for n_honest in [1usize, 3] {
+            t0 += 10_000_000_000_000;
+            let mut net = VNet::new(&mut rng, n_honest + 2, true);
+            let item = MutableItem::new(&key_from_seed(9), b"the genuine value", 7, Some(b"salt"));
+            for (i, p) in net.peers.iter_mut().enumerate() {
+                if i < n_honest {
+                    p.muts.insert(*item.target(), (item.value().to_vec(), *item.key(), item.seq(), *item.signature()));
+                    p.extra_delay = if forged_first { 40 * MS } else { 0 };
+                } else {
+                    p.forge = 7;
+                    p.extra_delay = if forged_first { 0 } else { 40 * MS };
+                }
+            }
+            let boot = vec![net.peers[0].addr];
+            let mut d = Driver::new(out, rng.next(), net);
+            d.begin("c", &boot, None, rng.next() % 1_000_000 + 1, t0);
+            d.run_for(2 * SEC, 10 * MS);
+            let pk = hex(key_from_seed(9).verifying_key().as_bytes());
+            d.api(format!("get_mut k={pk} salt={} seq=none", hex(b"salt")));
+            d.settle(20 * SEC, 10 * MS);
+            d.api(format!("get_mut k={pk} salt={} seq=3", hex(b"salt")));
+            d.settle(20 * SEC, 10 * MS);
+            d.finish();
+            d.out.mark_distinct(fnv(format!("Cr{forged_first}{n_honest}").as_bytes()));
+            d.s.shutdown();
+        }
+    }
     // ---- D: concurrent put_mutable on one key (C17): every relation x every phase of the first call
     let rels: [(&str, i64, &[u8], Option<i64>, &str); 8] = [
         ("same", 5, b"first", None, "ok"),
@@ -1598,6 +1636,33 @@ pub fn run(out: &mut Out, seed: u64, thorough: bool, replay: Option<&str>) {
         }
         d.finish();
         d.out.mark_distinct(d.rng.0 ^ 0x11 ^ round as u64);
+        d.s.shutdown();
+    }
+    // ---- I: more than 1000 distinct lookup targets roll the lookup cache (C20)
+    {
+        t0 += 10_000_000_000_000;
+        let net = VNet::new(&mut rng, 3, true);
+        let boot = vec![net.peers[0].addr];
+        let mut d = Driver::new(out, rng.next(), net);
+        d.begin("c", &boot, None, rng.next() % 1_000_000 + 1, t0);
+        d.run_for(SEC, 10 * MS);
+        let n = if thorough { 2100 } else { 1030 };
+        for i in 0..n {
+            let t = Id::from_bytes(d.rng.id20()).expect("id");
+            let call = match i % 3 {
+                0 => format!("get_peers ih={}", hex(t.as_bytes())),
+                1 => format!("find_node t={}", hex(t.as_bytes())),
+                _ => format!("get_imm t={}", hex(t.as_bytes())),
+            };
+            d.api(call);
+            d.settle(5 * SEC, 10 * MS);
+            if i % 100 == 99 || i >= 995 && i < 1010 {
+                d.run("snap".into());
+            }
+        }
+        d.finish();
+        d.out.mark_distinct(d.rng.0 ^ 0x1);
+        d.out.count("cache-roll-lookups");
         d.s.shutdown();
     }
     out.sample("case node mode=c boot=<peer0> : init; api put_imm; steps delivering the virtual peers' replies; api get_imm; ...; adv 60 s; quiet".into());
